@@ -274,6 +274,11 @@ func (e *Eval) dumper(offset int, opCode code.Opcode, opArg interface{}) (bool, 
 // of the constant-pool
 func (e *Eval) Dump() error {
 
+	// Nothing to show unless Prepare has succeeded.
+	if e.machine == nil {
+		return fmt.Errorf("there is no program to dump, Prepare must be called first (and succeed)")
+	}
+
 	fmt.Printf("Bytecode:\n")
 
 	// Use the walker to dump the bytecode.
